@@ -34,6 +34,32 @@ CHECKS = {
         note="Equality with the documented rule is demanded (the property says 'exactly'). Bounded as C01."),
 }
 
+CHECKS["C02"] = dict(
+    category="model_checking", design_ref="DESIGN.md section 2 (C02)",
+    technique="objective definitions in TLA+ (BigNat arithmetic, column-wise skyline integral); TLC enumerates every "
+              "feasible packing of tiny instances and checks tie range, documented bounds, conversion; all of them are "
+              "replayed into the 7 real objectives; recorded evaluation histories validated by TLC",
+    text="PackGen.tla generates every feasible packing (any position, any row order, sparse bins) of every instance of "
+         "the scope; TLC checks 1 <= tie <= scale, documented lower/upper bound formulas and ceil-conversion on all of "
+         "them; the real objectives must return exactly TLC's values on all of them (and dominance over all pairs). "
+         "Histories on reused objective objects over decoder outputs, arbitrary feasible layouts, storage-edge and "
+         "huge-area instances (values above 2^53) are judged by Trace_Obj: value, declared bounds, to_bin_count, "
+         "pairwise dominance.",
+    note="Exhaustive only for bins <= 2x2 (3x3 thorough) and <= 3 items; coordinates must stay below 2^31 (values are "
+         "BigNat). Declared bounds are taken from the code and only required to enclose the value and to convert back.")
+CHECKS["C04"] = dict(
+    category="model_checking", design_ref="DESIGN.md section 2 (C04)",
+    technique="feasibility predicate in TLA+ as the specification of validate; TLC enumerates decoder outputs x all "
+              "single-cell/bin-count corruptions; each state is fed to the real validator and to from_str(to_str()); "
+              "TLC decides accept/reject",
+    text="Validate.tla: every decoder output of the scope with every single corruption (any cell := any value of a "
+         "signed domain, stored bin count := any value) is a TLC state; Trace_Validate computes FeasibleClause for each "
+         "and demands accepted <=> feasible and, for the text round trip, parsed = original and accepted <=> feasible. "
+         "Seeded semantic corruptions (shift, resize, one-side-only match, id swap, bin gaps, wrong count/dtype/shape) "
+         "of larger real packings incl. bin sides above 10^9.",
+    note="Two genuine defects were found by this check and repaired (fix: commits 3a68536, 22a5ec5; see "
+         "KNOWN_FINDINGS.json). Bounded: exhaustive single corruptions only in the small scope.")
+
 NOT_YET = {
 }
 
